@@ -3,9 +3,9 @@ package level
 import (
 	"bytes"
 
+	vp "github.com/Tnze/go-mc/internal/zzvp"
 	"github.com/Tnze/go-mc/level/biome"
 	"github.com/Tnze/go-mc/level/block"
-	vp "github.com/Tnze/go-mc/internal/zzvp"
 )
 
 // ---- independent paletted-container reader (protocol wiki "Paletted Container")
@@ -308,7 +308,6 @@ func VP_C12_withdata_state() {
 	}
 	vp.Cover("end")
 }
-
 
 // reload a container over the wire into a previously used container of the
 // same (hash-palette) width, then keep mutating it: still an array.
